@@ -117,12 +117,13 @@ package services
 // One buffered reader per connection (what a reader has buffered beyond one request belongs to the next
 // request: a second reader over the same connection loses it), and one event per request read.
 //@ func (*httpService).Handle
-//@   requires served(conn) && conn.bufreaders == 0
+//@   requires served(conn) && conn.bufreaders == 0 && !bodypending
 //@   physical 0 <= nsends && nsends < 1<<48
+//@   callpre io.Copy: src == caller.req.Body
 //@   ensures [one-reader] conn.bufreaders == 1
 //@   ensures [one-event-per-request] nsends - old(nsends) == nrequests - old(nrequests) || (result != nil && nsends - old(nsends) == nrequests - old(nrequests) - 1)
 //@   modifies *
-//@   loop 1: invariant conn.bufreaders == 1
+//@   loop 1: invariant conn.bufreaders == 1 && !bodypending
 //@   loop 1: invariant nsends - old(nsends) == nrequests - old(nrequests)
 //
 // Datagram services: a datagram handed over by the server (wrapped, see served) is read, decoded and
@@ -193,7 +194,7 @@ package services
 //@   callcount Director.Dial: nbackend
 //@   callcount http.(*Request).Write: nreqout
 //@   callcount http.(*Response).Write: nrespout
-//@   requires served(conn) && conn.bufreaders == 0
+//@   requires served(conn) && conn.bufreaders == 0 && !bodypending && !respbodypending
 //@   physical 0 <= nbackend && nbackend < 1<<48 && 0 <= nsends && nsends < 1<<48 && 0 <= nreqout && nreqout < 1<<48 && 0 <= nrespout && nrespout < 1<<48
 //@   callpre Director.Dial: a1 == caller.conn
 //@   callpre net.Dial: false
@@ -206,6 +207,6 @@ package services
 //@   ensures [every-reply-returned] nrespout - old(nrespout) == nresponses - old(nresponses)
 //@   ensures [every-request-reported] nsends - old(nsends) <= nrequests - old(nrequests) && nrequests - old(nrequests) - 1 <= nsends - old(nsends)
 //@   modifies *
-//@   loop 1: invariant conn.bufreaders == 1 && conn2.bufreaders == 1 && nbackend == old(nbackend) + 1
+//@   loop 1: invariant conn.bufreaders == 1 && conn2.bufreaders == 1 && nbackend == old(nbackend) + 1 && !bodypending && !respbodypending
 //@   loop 1: invariant nrequests == old(nrequests) + loopiter && nresponses == old(nresponses) + loopiter
 //@   loop 1: invariant nreqout == old(nreqout) + loopiter && nrespout == old(nrespout) + loopiter && nsends == old(nsends) + loopiter
